@@ -256,14 +256,29 @@ def simulate(module, cfg, num, depth, seed, timeout=1800):
     return behs, res
 
 
-def greedy_edge_cover(g, rng, maxlen, budget=None):
+def reachable(g, init):
+    seen, dq = {init}, deque([init])
+    while dq:
+        x = dq.popleft()
+        for _, v in g.out.get(x, []):
+            if v not in seen:
+                seen.add(v)
+                dq.append(v)
+    return seen
+
+
+def greedy_edge_cover(g, rng, maxlen, budget=None, init=None):
     """Walks from an initial state, each at most `maxlen` edges, that together
     cover every reachable edge (or `budget` walks).  Each walk first goes by a
     shortest path to the nearest state with an uncovered out-edge, then keeps
     following uncovered edges."""
-    uncovered = {(u, lab, v) for u in g.out for lab, v in g.out[u]}
+    if init is None:
+        init = g.init[0]
+        uncovered = {(u, lab, v) for u in g.out for lab, v in g.out[u]}
+    else:
+        rs = reachable(g, init)
+        uncovered = {(u, lab, v) for u in rs for lab, v in g.out.get(u, [])}
     walks = []
-    init = g.init[0]
 
     def nearest(u, left):
         # BFS up to `left` steps for a state with an uncovered out-edge
